@@ -35,23 +35,99 @@ def append_module(scratch, file, modname, include_path, cfg):
         f.write("\n#[cfg(%s)]\nmod %s { include!(\"%s\"); }\n" % (cfg, modname, include_path))
 
 
+def derive_async_oracle(src_text):
+    """The async flavour's whole-cache oracle is DERIVED from the sync one (replay/cache.rs) on every run, so the two cannot
+    drift: same model, same checks; the cache is an AsyncCache built with finalize(tokio::spawn), every async call is awaited,
+    the test body runs inside a multi-thread tokio runtime.  Only the main oracle is derived."""
+    s = src_text
+    a = s.index("#[test]\nfn cache_at_quiescence_matches_model() {")
+    b = s.index("\n}\n", a) + 3
+    head, fn = s[:a], s[a:b]
+    # keep the shared helper types of the header, drop nothing else
+    fn = fn.replace("fn cache_at_quiescence_matches_model()", "fn async_cache_at_quiescence_matches_model()")
+    fn = fn.replace('"cache_at_quiescence_matches_model"', '"async_cache_at_quiescence_matches_model"')
+    fn = fn.replace("let c: Cache<u64, u64, OracleKb, ValueCoster, Mono, Rec> = Cache::builder(200, max_cost)",
+                    "let c: AsyncCache<u64, u64, OracleKb, ValueCoster, Mono, Rec> = AsyncCache::builder(200, max_cost)")
+    fn = fn.replace(".finalize()\n", ".finalize(tokio::spawn)\n")
+    for call in ("c.insert_if_present(k, next_val, cost)", "c.remove(&k)", "c.clear()", "c.wait()", "c.close()", "c.get(&k)"):
+        if call not in fn:
+            raise RuntimeError("derive_async_oracle: call shape %s not found" % call)
+        fn = fn.replace(call, call + ".await")
+    m = re.search(r"if with_ttl \{ (c\.insert_with_ttl\([^;]*?\)) \} else \{ (c\.insert\([^;]*?\)) \}", fn)
+    if not m:
+        raise RuntimeError("derive_async_oracle: insert shape")
+    fn = fn.replace(m.group(0), "if with_ttl { %s.await } else { %s.await }" % (m.group(1), m.group(2)))
+    fn = fn.replace("std::thread::yield_now();", "tokio::task::yield_now().await;")
+    fn = fn.replace("std::thread::sleep(Duration::from_millis(2));", "tokio::time::sleep(Duration::from_millis(2)).await;")
+    fn = fn.replace('"Cache(num_counters', '"AsyncCache(num_counters')
+    g0 = fn.index("guarded(")
+    g1 = fn.index("|| {", g0) + 4
+    g2 = fn.rindex("});")
+    fn = (fn[:g1] + "\n    tokio::runtime::Builder::new_multi_thread().worker_threads(2).enable_all().build().unwrap().block_on(async {\n"
+          + fn[g1:g2] + "\n    });\n    " + fn[g2:])
+    if "c.finalize()" in fn or ".await.await" in fn:
+        raise RuntimeError("derive_async_oracle: leftover")
+    fn = fn.replace('&["C', '&["C19", "C')      # every clause of the async flavour also serves C19
+    return head + fn
+
+
+def derive_async_sweep_oracle(src_text):
+    """async flavour of the store sweep oracle (replay/ttl.rs::store_cleanup_removes_only_expired): the same script and checks
+    against ShardedMap::try_cleanup_async with an AsyncLFUPolicy, inside a tokio runtime"""
+    s = src_text
+    a = s.index("#[test]\nfn store_cleanup_removes_only_expired() {")
+    b = s.index("\n}\n", a) + 3
+    h1 = s.index("#[test]")          # helpers before the first test
+    head, fn = s[:h1], s[a:b]
+    fn = fn.replace("fn store_cleanup_removes_only_expired()", "fn async_store_cleanup_removes_only_expired()")
+    fn = fn.replace('"store_cleanup_removes_only_expired"', '"async_store_cleanup_removes_only_expired"')
+    for frm, to in (("use crate::policy::LFUPolicy;", "use crate::policy::AsyncLFUPolicy;"),
+                    ("LFUPolicy::new(100, 1000)", "AsyncLFUPolicy::new(100, 1000, tokio::spawn)"),
+                    ("s.try_cleanup(p.clone())", "s.try_cleanup_async(p.clone())"),
+                    ("let _ = p.close();", "let _ = p.close().await;"),
+                    ('"ShardedMap::try_cleanup"', '"ShardedMap::try_cleanup_async"')):
+        if frm not in fn:
+            raise RuntimeError("derive_async_sweep_oracle: %s not found" % frm)
+        fn = fn.replace(frm, to)
+    fn = fn.replace("try_cleanup(policy)", "try_cleanup_async(policy)")
+    g0 = fn.index("guarded(")
+    g1 = fn.index("|| {", g0) + 4
+    g2 = fn.rindex("});")
+    fn = (fn[:g1] + "\n    tokio::runtime::Builder::new_multi_thread().worker_threads(2).enable_all().build().unwrap().block_on(async {\n"
+          + fn[g1:g2] + "\n    });\n    " + fn[g2:])
+    fn = fn.replace('&["C', '&["C19", "C')
+    return head + fn
+
+
 def run_oracles(groups, repo, work, seed, only=None, iters=None):
     """returns list of dict(test, clause, props, input, observed, required) for every REPLAY-FAIL line"""
     if not groups:
         return [], ""
     scratch = scratch_copy(repo, work, "replay%d" % int(time.time() * 1000 % 100000))
     names = []
+    features = []
     for g in groups:
         cfg = registry.REPLAY_GROUPS[g]
-        append_module(scratch, cfg["file"], "verif_replay_" + g, os.path.join(ROOT, cfg["include"]), "test")
+        inc = os.path.join(ROOT, cfg["include"])
+        if cfg.get("derive") in ("async", "async-sweep"):
+            with open(inc) as f:
+                derived = (derive_async_oracle if cfg["derive"] == "async" else derive_async_sweep_oracle)(f.read())
+            inc = os.path.join(scratch, "verif_derived_%s.rs" % g)
+            with open(inc, "w") as f:
+                f.write(derived)
+        append_module(scratch, cfg["file"], "verif_replay_" + g, inc, "test")
         names.append("verif_replay_" + g)
-    env = cargo_env("target-test")
+        for ft in cfg.get("features", []):
+            if ft not in features:
+                features.append(ft)
+    env = cargo_env("target-test-" + "-".join(features) if features else "target-test")
     env["VERIF_SEED"] = str(seed)
     if iters:
         env["VERIF_ITERS"] = str(iters)
     if only:
         env["VERIF_ONLY"] = only
-    cmd = ["cargo", "test", "--offline", "--lib", "--quiet", "verif_replay_", "--", "--nocapture", "--test-threads", "1"]
+    cmd = ["cargo", "test", "--offline", "--lib", "--quiet"] + (["--features", ",".join(features)] if features else []) + [
+        "verif_replay_", "--", "--nocapture", "--test-threads", "1"]
     try:
         p = subprocess.run(cmd, cwd=scratch, env=env, capture_output=True, text=True, timeout=1500)
         out = p.stdout + "\n" + p.stderr
